@@ -621,7 +621,8 @@ type c09DualKind struct {
 	addr   tcpip.Address // bind address
 	getsV4 bool
 	getsV6 bool
-	rank   int // specific address 2, wildcard 1
+	rank   int           // specific address 2, wildcard 1, connected 3
+	conn   tcpip.Address // != "": after the bind the socket connects to this peer (port Q)
 }
 
 var c09Mapped = func(a tcpip.Address) tcpip.Address {
@@ -629,13 +630,15 @@ var c09Mapped = func(a tcpip.Address) tcpip.Address {
 }
 
 var c09DualKinds = []c09DualKind{
-	{"v4 *:P", false, false, "", true, false, 1},
-	{"v4 A1:P", false, false, c09A1, true, false, 2},
-	{"v6 dual-stack [::]:P", true, false, "", true, true, 1},
-	{"v6 dual-stack [::ffff:0.0.0.0]:P", true, false, c09Mapped("\x00\x00\x00\x00"), true, false, 1},
-	{"v6 dual-stack [::ffff:A1]:P", true, false, c09Mapped(c09A1), true, false, 2},
-	{"v6-only [::]:P", true, true, "", false, true, 1},
-	{"v6 [A6]:P", true, false, addrA6, false, true, 2},
+	{"v4 *:P", false, false, "", true, false, 1, ""},
+	{"v4 A1:P", false, false, c09A1, true, false, 2, ""},
+	{"v6 dual-stack [::]:P", true, false, "", true, true, 1, ""},
+	{"v6 dual-stack [::ffff:0.0.0.0]:P", true, false, c09Mapped("\x00\x00\x00\x00"), true, false, 1, ""},
+	{"v6 dual-stack [::ffff:A1]:P", true, false, c09Mapped(c09A1), true, false, 2, ""},
+	{"v6-only [::]:P", true, true, "", false, true, 1, ""},
+	{"v6 [A6]:P", true, false, addrA6, false, true, 2, ""},
+	{"v6 dual-stack [::]:P connected to [::ffff:R]:Q", true, false, "", true, false, 3, c09Mapped(c09R)},
+	{"v6 dual-stack [::]:P connected to [B6]:Q", true, false, "", false, true, 3, addrB6},
 }
 
 func c09DualNames() []string {
@@ -676,6 +679,11 @@ func c09Dual(a, b int) (*c09Fail, bool) {
 		}
 		if err := sk.EP.Bind(tcpip.FullAddress{Addr: k.addr, Port: c09P}, nil); err != nil {
 			return nil, false
+		}
+		if k.conn != "" {
+			if err := sk.EP.Connect(tcpip.FullAddress{Addr: k.conn, Port: c09Q}); err != nil {
+				return nil, false
+			}
 		}
 		kinds = append(kinds, k)
 	}
